@@ -11,6 +11,8 @@ import (
 	"strings"
 	"testing"
 
+	"golang.org/x/sys/unix"
+
 	"github.com/panjf2000/gnet/v2/internal/verifmc/mcsys"
 	"github.com/panjf2000/gnet/v2/internal/verifmc/sched"
 	"github.com/panjf2000/gnet/v2/internal/verifmc/seqmc"
@@ -18,6 +20,7 @@ import (
 
 type lifeCfg struct {
 	name    string
+	tcp     bool // TCP on loopback with SO_REUSEPORT: the loops accept inline ("run" mode instead of reactors)
 	et      bool
 	loops   int
 	wantErr []string // per connection id: "nil", "nonnil", "any"
@@ -444,7 +447,27 @@ func lifeConfigs() []lifeCfg {
 			}
 		}})
 	}
-	return cfgs
+	// the same histories over TCP with SO_REUSEPORT (loops accept inline); loopback TCP timing can
+	// make replays diverge, such subtrees are dropped and reported in the evidence
+	var tcp []lifeCfg
+	for _, c := range cfgs {
+		// (as built: no scenario is selected. Loopback TCP delivers data and FINs asynchronously, so the
+		// per-scenario expectations about who closed first and the scheduler's "nobody is enabled"
+		// test are not sound there; the machinery is kept for experiments with MC_TCP=1.)
+		picks := []string{}
+		if os.Getenv("MC_TCP") == "1" {
+			picks = []string{"peer-close/", "action-close-traffic/", "elclose-in-traffic/", "write-fail-in-traffic/", "relay-close/"}
+		}
+		for _, pick := range picks {
+			if strings.HasPrefix(c.name, pick) {
+				t := c
+				t.name = "tcp-reuseport/" + c.name
+				t.tcp = true
+				tcp = append(tcp, t)
+			}
+		}
+	}
+	return append(cfgs, tcp...)
 }
 
 func lifeWorld(c lifeCfg) *world {
@@ -452,6 +475,11 @@ func lifeWorld(c lifeCfg) *world {
 	w.opts = []Option{WithNumEventLoop(c.loops)}
 	if c.et {
 		w.opts = append(w.opts, WithEdgeTriggeredIO(true))
+	}
+	if c.tcp {
+		a := &unix.SockaddrInet4{Addr: [4]byte{127, 0, 0, 1}}
+		w.addr = fmt.Sprintf("tcp://127.0.0.1:%d", freeTCPPort(a, false))
+		w.opts = append(w.opts, WithReusePort(true), WithReuseAddr(true))
 	}
 	cc := c
 	c.build(w, &cc)
@@ -602,11 +630,11 @@ func lifeSchedConfigs(prop string, check func(lifeCfg) func(*world, *sched.Outco
 		c := c
 		bounds := engineBounds(2, 3, 0)
 		for _, h := range lifeHeavy {
-			if strings.HasPrefix(c.name, h) {
+			if strings.HasPrefix(c.name, h) || strings.HasPrefix(c.name, "tcp-reuseport/") {
 				bounds = engineBounds(1, 2, 0) // 6-7 threads: one schedule deviation in the quick tier
 			}
 		}
-		out = append(out, sched.Config{Property: prop, Name: c.name, Bounds: bounds, Horizon: 20000, Deadline: seqmc.Deadline(), DelayBounded: true, New: func() sched.Scenario {
+		out = append(out, sched.Config{Property: prop, Name: c.name, Bounds: bounds, Horizon: 20000, Deadline: seqmc.Deadline(), DelayBounded: true, TolerateNondeterminism: c.tcp, New: func() sched.Scenario {
 			w := lifeWorld(c)
 			w.checks = append(w.checks, checkEnd, check(c))
 			return w
